@@ -303,6 +303,14 @@ func (e *engine) ifaceContract(recv types.Type, method string) *funcContract {
 			return fc
 		}
 	}
+	// unqualified, in the contract file of the package that defines the interface
+	if nt, ok := recv.(*types.Named); ok && nt.Obj().Pkg() != nil {
+		if pc := e.contracts[nt.Obj().Pkg().Path()]; pc != nil {
+			if fc := pc.funcs[nt.Obj().Name()+"."+method]; fc != nil {
+				return fc
+			}
+		}
+	}
 	return nil
 }
 
